@@ -178,6 +178,7 @@ def enc_hextile(fmt, rows, rng, stats):
     h = len(rows)
     w = len(rows[0]) if h else 0
     out = b""
+    allcols = [v for r in rows for v in r] or [0]
     bg = fg = None       # what a strict decoder may assume is carried over
     for ty in range(0, h, 16):
         for tx in range(0, w, 16):
@@ -192,6 +193,9 @@ def enc_hextile(fmt, rows, rng, stats):
                 stats["hextile-raw"] += 1
                 continue
             tbg = cols.most_common(1)[0][0]
+            if len(cols) == 2 and fg in cols and rng.random() < 0.8:
+                # use the carried foreground: the other colour is this tile's background
+                tbg = [c for c in cols if c != fg][0]
             sub = 0
             body = b""
             if tbg != bg or rng.random() < 0.2:
@@ -200,8 +204,9 @@ def enc_hextile(fmt, rows, rng, stats):
             bg = tbg
             if len(cols) == 1:
                 # solid tile; sometimes with a (useless but legal) foreground or zero subrects
-                if rng.random() < 0.15:
-                    fg = rng.choice(flat)
+                if rng.random() < 0.3:
+                    # a foreground nobody uses in this tile, but which later tiles may rely on
+                    fg = rng.choice(allcols)
                     sub |= 4
                     body += fmt.pix(fg)
                 if rng.random() < 0.15:
@@ -522,6 +527,18 @@ def gen_handshake(rng, s: Session, variant, password, *, want_success=None, nati
 
 
 def rand_fb(rng, fmt, w, h):
+    if w and h and rng.random() < 0.45:
+        # desktop-like content: a background with a few filled blocks (many solid and two-colour tiles)
+        pal = [rng.getrandbits(fmt.bpp) for _ in range(rng.choice([2, 2, 3, 4]))]
+        fb = [[pal[0]] * w for _ in range(h)]
+        for _ in range(rng.randrange(0, 5)):
+            bx, by = rng.randrange(w), rng.randrange(h)
+            bw, bh = rng.randrange(1, w - bx + 1), rng.randrange(1, h - by + 1)
+            c = rng.choice(pal)
+            for yy in range(by, by + bh):
+                for xx in range(bx, bx + bw):
+                    fb[yy][xx] = c
+        return fb
     npal = rng.choice([1, 2, 2, 3, 4, 5, 16, 17, 40, 200, 0])
     pal = [rng.getrandbits(fmt.bpp) for _ in range(npal)] if npal else None
     fb = []
@@ -572,7 +589,7 @@ def gen_rect(rng, s: Session, encodings, maxdim=40):
         tiles, kinds = enc_zrle_tiles(fmt, rows, rng, s.notes)
         comp = s.zlib.compress(tiles) + s.zlib.flush(zlib.Z_SYNC_FLUSH)
         body = struct.pack("!I", len(comp)) + comp
-        if fmt.bpp != 32 and w and h:
+        if w and h and not any(fmt.t == a.t for a in (RGB32, BGR32)):
             s.findings.add("zrle-non32bpp")
         for (kind, tw, th, ncol) in kinds:
             if kind == "packed":
